@@ -113,6 +113,10 @@ type tree struct {
 	keyByH     func(h arena.MemKeyHandle) []byte
 	valByH     func(h arena.MemKeyHandle) ([]byte, bool)
 	hasSeq     bool
+	dump       func() string                 // ART only: canonical structure dump of the tree
+	tsearch    func(k []byte) bool           // ART only: search without the cache
+	tkeys      func(rev bool) [][]byte       // ART only: all leaves in iterator order
+	rbtCheck   func() (string, [][]byte)     // RBT only: red-black invariants on the real tree + in-order keys
 	pos        func() *unionstore.MemDBCheckpoint // end of the value log, no side effect (Checkpoint() remembers what it hands out)
 	stageCps   []*unionstore.MemDBCheckpoint
 	stageViews []view
@@ -132,6 +136,9 @@ func newTree(name string, entry, buf uint64) *tree {
 		t.keyByH = db.GetKeyByHandle
 		t.valByH = db.GetValueByHandle
 		t.pos = db.VerifPosition
+		t.dump = db.VerifDump
+		t.tsearch = db.VerifSearch
+		t.tkeys = db.VerifKeys
 		t.hasSeq = true
 	} else {
 		db := unionstore.VerifNewRBT(entry, buf)
@@ -142,6 +149,7 @@ func newTree(name string, entry, buf uint64) *tree {
 		t.keyByH = db.GetKeyByHandle
 		t.valByH = db.GetValueByHandle
 		t.pos = db.VerifPosition
+		t.rbtCheck = db.VerifCheck
 	}
 	return t
 }
@@ -816,6 +824,54 @@ func (wd *world) exec(line string) string {
 		}
 		*wd = *newWorld(e, b)
 		return "ok"
+	case "rbtchk":
+		// property op: the red-black invariants checked on the real RBT (no model of the rotations exists)
+		return guard(func() string {
+			bad, _ := wd.rbt.rbtCheck()
+			if bad != "" {
+				return "FAIL rbt-" + bad
+			}
+			return "ok"
+		})
+	case "rbtkeys":
+		return guard(func() string {
+			_, ks := wd.rbt.rbtCheck()
+			var sb strings.Builder
+			sb.WriteString(strconv.Itoa(len(ks)) + ":")
+			for _, k := range ks {
+				sb.WriteString(" " + showVal(k))
+			}
+			return sb.String()
+		})
+	case "tdump":
+		return guard(func() string { return wd.art.dump() })
+	case "tsearch":
+		if len(w) != 2 {
+			return "bad-op"
+		}
+		k, ok := parseBytesTok(w[1])
+		if !ok {
+			return "bad-op"
+		}
+		return guard(func() string {
+			if wd.art.tsearch(k) {
+				return "found"
+			}
+			return "none"
+		})
+	case "tkeys":
+		if len(w) != 2 {
+			return "bad-op"
+		}
+		return guard(func() string {
+			ks := wd.art.tkeys(w[1] == "1")
+			var sb strings.Builder
+			sb.WriteString(strconv.Itoa(len(ks)) + ":")
+			for _, k := range ks {
+				sb.WriteString(" " + showVal(k))
+			}
+			return sb.String()
+		})
 	case "nreset", "nadd", "nfind", "nrepl", "nlist", "nrlist":
 		return guard(func() string { return wd.nodeOp(w) })
 	case "iterw":
